@@ -151,6 +151,7 @@ func RunBubble(t *testing.T, cfg Config, root func(s *Sim)) (s *Sim) {
 	// the garbage collector happens to run: no GC during a run.
 	oldGC := debug.SetGCPercent(-1)
 	defer debug.SetGCPercent(oldGC)
+	ResetPools() // a run does not inherit pooled objects from the run before it in the same process
 	defer func() {
 		cur = nil
 		if r := recover(); r != nil {
